@@ -274,6 +274,36 @@ impl<F, R> CongressSample<F, R> {
     }
 }
 
+/// Verification-only accessors (`--cfg metrique_verif`); the sampler's clock is not injectable.
+#[cfg(metrique_verif)]
+#[doc(hidden)]
+impl<F, R> CongressSample<F, R> {
+    /// End the current interval now: runs the real `update_rates`.
+    pub fn verif_end_interval(&mut self) {
+        self.update_rates()
+    }
+
+    /// Per group: (group, sample rate in force, average observed volume, observed this interval)
+    pub fn verif_group_rates(&self) -> Vec<(Vec<SampleGroupElement>, f32, f32, u32)> {
+        self.groups
+            .iter()
+            .map(|(g, s)| {
+                (
+                    g.to_vec(),
+                    s.sample_rate,
+                    s.average_observed.current(),
+                    s.current_observed,
+                )
+            })
+            .collect()
+    }
+
+    /// Entries observed so far in the current interval
+    pub fn verif_current_observed(&self) -> u32 {
+        self.current_observed
+    }
+}
+
 #[derive(Clone, Copy, Default)]
 struct GroupState {
     current_observed: u32,
